@@ -714,6 +714,9 @@ func specs() []Case {
 	return out
 }
 
+// baseSpec: the scenario belongs to the quick tier's list (Seed 1 or literal).
+func baseSpec(c Case) bool { return c.Seed <= 1 }
+
 // fullK selects the scenarios whose all-threads index K is swept without
 // gaps in the quick tier.
 func fullK(c Case) bool {
@@ -730,7 +733,8 @@ func fullK(c Case) bool {
 // numbers of this worker's probe run (the window moves by tens of syscalls
 // from run to run, so this sweep is statistical): from a margin before the
 // window to a margin past the end of the run, plus earlier points. The
-// thorough tier takes every k from 1; the quick tier bounds the count (the
+// thorough tier takes every k (from 1 for the scenarios of the quick list,
+// from the window for the others); the quick tier bounds the count (the
 // complete sweep of the quick tier is the J one): every k of the window for
 // the fullK scenarios (at most 400 points), about 120 evenly spaced points
 // for the others, and about 24 points before the window.
@@ -742,7 +746,12 @@ func kSweep(c Case, pi probeInfo) []int {
 	}
 	var ks []int
 	if vh.Thorough() {
+		// every k from 1 for the scenarios of the quick list, every k of
+		// the window (and 1 in 4 before it) for the additional ones
 		for k := 1; k <= hi; k++ {
+			if k < lo && !baseSpec(c) && k%4 != 0 {
+				continue
+			}
 			ks = append(ks, k)
 		}
 		return ks
